@@ -48,7 +48,10 @@ def run (fc : Facts) (inp : J) : J :=
   let canonTbl := inp.getObj "canon"
   let canon : String → String := fun n => match lookup n canonTbl with | some (.str r) => r | _ => "<no canonical ref for " ++ n ++ ">"
   -- C01: start pairs
-  let sharedKeys := ["definitions", "parameters", "responses"]
+  -- "x-path-items": the vendor extension in which the generator keeps shared path items (Swagger 2.0 has no
+  -- section for them).  Extensions are opaque to the analysis: the part is not compared and a `$ref`-shaped
+  -- value inside it is not a `$ref` of the API; it stays in `b1` so that the path-item `$ref`s resolve.
+  let sharedKeys := ["definitions", "parameters", "responses", "x-path-items"]
   let topKeys : J → List String := fun r => match r with
     | .obj kvs => (kvs.map fun kv => kv.1).filter (fun k => !sharedKeys.contains k)
     | _ => []
@@ -73,6 +76,7 @@ def run (fc : Facts) (inp : J) : J :=
       | some (.arr xs) => some (strs xs)
       | _ => none }
   let encRefs := fun (l : List (List String × String)) => J.arr (l.map fun tr => .arr [.str (Spec.Index.key tr.1), .str tr.2])
+  let root2 := root2.erase "x-path-items"
   .obj [
     ("meaning", .obj [
       ("ok", .bool (certOK && top1 == top2 && missingDefs.isEmpty)),
